@@ -127,12 +127,12 @@ def _make_short_name_mapper():
     return renamer
 
 
-def _make_unique_name_mapper():
+def _make_unique_name_mapper(used: set[str]):
     """Returns a renamer that cleans up names like _cleanup_variable_name, but maps
     distinct ONNX names (like "a.b" and "a_b") to distinct python names.
+    The python names in `used` (the caller may add reserved names to it) are never produced.
     """
     python_names: dict[str, str] = {}  # ONNX name -> python name
-    used: set[str] = set()
 
     def renamer(name):
         if name not in python_names:
@@ -300,10 +300,12 @@ class _Exporter:
         self, *, rename: bool, use_operators: bool, inline_const: bool, skip_initializers: bool
     ) -> None:
         self.use_operators = use_operators
+        # Module-level names of the generated text that a value name must not shadow.
+        self._reserved_names: set[str] = set()
         if rename:
             rename_function = _make_short_name_mapper()
         else:
-            rename_function = _make_unique_name_mapper()
+            rename_function = _make_unique_name_mapper(self._reserved_names)
         self._rename_variable = self._handle_attrname_conflict(rename_function)
         self.inline_const = inline_const
         self.constants: dict[str, str] = {}
@@ -869,13 +871,27 @@ def make_model_with_random_weights():
                 used_types.add(its)
         # TODO: handle types in nested graphs.
         sorted_types = sorted(used_types)
+        self._reserved_names.update(sorted_types)
         if sorted_types:
             return "from onnxscript.onnx_types import " + ", ".join(sorted_types)
         return ""
 
+    def _reserve_global_names(self, proto: onnx.ModelProto | onnx.FunctionProto) -> None:
+        """Reserves the module-level names (imports, opset aliases) the functions refer to."""
+        imported = ("np", "TensorProto", "make_tensor", "script", "external_tensor", "Opset")
+        self._reserved_names.update(imported)
+        self._reserved_names.add("value_infos")  # make_model (skip_initializers) reads it
+        protos = [proto, *proto.functions] if isinstance(proto, ModelProto) else [proto]
+        for p in protos:
+            for x in p.opset_import:
+                self._reserved_names.add(self._make_opset_name(x.domain, x.version))
+            if isinstance(p, FunctionProto):
+                self._reserved_names.add(self._make_opset_name(p.domain, 1))
+
     def export(
         self, proto: onnx.ModelProto | onnx.FunctionProto, function_name: Optional[str]
     ) -> str:
+        self._reserve_global_names(proto)
         result: list[str] = []
 
         def add(line: str) -> None:
